@@ -2,7 +2,7 @@ import Tahoe.Storage.LemmasSlot
 import Tahoe.Storage.LemmasLeaseBucket
 /-!
 C23 — mutable share containers behave like byte arrays (property theorems only; helper lemmas are in
-`Tahoe/Storage/Lemmas{Mutable,Lease,Slot}.lean`).
+`Tahoe/Storage/Lemmas{Mutable,Lease,Slot,LeaseBucket}.lean`).
 
 Model: `Tahoe/Storage/Mutable.lean` (container file, byte-exact), `Tahoe/Storage/Slot.lean` (server calls).
 Specification: `Tahoe/Storage/Spec.lean`, `SlotSpec.lean` (a share = a growable byte array; a storage
